@@ -233,7 +233,7 @@ pub fn worker_main(prop: &dyn Prop, env: &Env, from: u64, to: u64, step: u64, pr
             }
         }
         if let Some(f) = out.failure {
-            let line = json!({"t": "fail", "index": i, "failure": f});
+            let line = json!({"t": "fail", "index": i, "failure": f, "from": from, "step": step});
             let mut lock = stdout.lock();
             let _ = writeln!(lock, "{}", line);
             let _ = lock.flush();
@@ -310,6 +310,8 @@ struct WorkerSlot {
     eof: bool,
     /// the worker handed a stuck run back: (run index, preemption level to restart at)
     stuck: Option<(u64, u8)>,
+    /// the driver's watchdog killed this worker (its current run made no progress)
+    watchdog_killed: bool,
 }
 
 #[allow(clippy::too_many_arguments)]
@@ -361,7 +363,7 @@ fn spawn_worker(prop_id: &str, opts: &DriverOpts, from: u64, to: u64, step: u64,
         }
         let _ = tx.send(Msg::Eof(widx));
     });
-    WorkerSlot { child, progress, offset: from, last_progress: u64::MAX - 1, last_change: Instant::now(), done: false, eof: false, stuck: None }
+    WorkerSlot { child, progress, offset: from, last_progress: u64::MAX - 1, last_change: Instant::now(), done: false, eof: false, stuck: None, watchdog_killed: false }
 }
 
 fn read_progress(p: &Path) -> Option<u64> {
@@ -380,9 +382,13 @@ pub struct Aggregate {
     pub digests: BTreeMap<u64, u64>,
     pub samples: Vec<Value>,
     pub failures: Vec<(u64, Failure)>,
+    /// run index of a failure -> (first index, stride) of the worker PROCESS that executed it: the runs that
+    /// process had executed before (process-wide state of the code under test is part of the case)
+    pub process_of: BTreeMap<u64, (u64, u64)>,
     pub harness_errors: Vec<String>,
     pub crashes: u64,
     pub timeouts: u64,
+    pub timeout_candidates: Vec<String>,
 }
 
 /// Run indices 0..n over worker processes.
@@ -403,9 +409,11 @@ pub fn run_batch(prop: &dyn Prop, opts: &DriverOpts, n: u64) -> Aggregate {
         digests: BTreeMap::new(),
         samples: Vec::new(),
         failures: Vec::new(),
+        process_of: BTreeMap::new(),
         harness_errors: Vec::new(),
         crashes: 0,
         timeouts: 0,
+        timeout_candidates: Vec::new(),
     };
     let mut stopping = false;
     let mut stuck_respawns = 0u64;
@@ -422,6 +430,9 @@ pub fn run_batch(prop: &dyn Prop, opts: &DriverOpts, n: u64) -> Aggregate {
                         if let Ok(f) = serde_json::from_value::<Failure>(v["failure"].clone()) {
                             if agg.failures.len() < 200 {
                                 agg.failures.push((idx, f));
+                                if let (Some(a), Some(b)) = (v["from"].as_u64(), v["step"].as_u64()) {
+                                    agg.process_of.insert(idx, (a, b));
+                                }
                             }
                         }
                         // a tree this broken needs no further sampling: stop the batch early
@@ -502,7 +513,9 @@ pub fn run_batch(prop: &dyn Prop, opts: &DriverOpts, n: u64) -> Aggregate {
                                 o.insert("run_seed".into(), json!(format!("{:#018x}", seed)));
                             }
                             let _ = std::fs::remove_dir_all(&env.scratch);
-                            agg.failures.push((i, Failure { oracle: format!("crash:signal{}", sig.unwrap_or(0)), detail: desc, case }));
+                            let oracle = if slots[w].watchdog_killed { "timeout:no_progress".to_string() } else { format!("crash:signal{}", sig.unwrap_or(0)) };
+                            let desc = if slots[w].watchdog_killed { format!("run {} made no progress for {:?} (killed by the watchdog)", i, opts.watchdog) } else { desc };
+                            agg.failures.push((i, Failure { oracle, detail: desc, case }));
                         } else {
                             agg.harness_errors.push(desc);
                         }
@@ -530,8 +543,10 @@ pub fn run_batch(prop: &dyn Prop, opts: &DriverOpts, n: u64) -> Aggregate {
                 slots[w].last_change = Instant::now();
             } else if slots[w].last_change.elapsed() > opts.watchdog && cur != u64::MAX {
                 let _ = slots[w].child.kill();
+                slots[w].watchdog_killed = true;
                 agg.timeouts += 1;
-                agg.harness_errors.push(format!("TIMEOUT-CANDIDATE run {} made no progress for {:?}", cur, opts.watchdog));
+                // (a candidate only: believed, and reported as a violation, if the solo re-run confirms it)
+                agg.timeout_candidates.push(format!("run {} made no progress for {:?}", cur, opts.watchdog));
                 // Eof handling will attribute and restart
             }
         }
@@ -589,6 +604,12 @@ pub fn signature(f: &Failure) -> String {
 }
 
 pub fn write_replay(prop: &dyn Prop, env: &Env, f: &Failure, original: &Failure, shrink_steps: u32) -> PathBuf {
+    write_replay_h(prop, env, f, original, shrink_steps, &[])
+}
+
+/// `history`: run indices to execute in the replaying process BEFORE the case (the failure depends on state the
+/// code under test keeps across Modules in one process).
+pub fn write_replay_h(prop: &dyn Prop, env: &Env, f: &Failure, original: &Failure, shrink_steps: u32, history: &[u64]) -> PathBuf {
     let dir = Path::new(VERIF_ROOT).join("replays");
     let _ = std::fs::create_dir_all(&dir);
     let sig = signature(f);
@@ -601,6 +622,7 @@ pub fn write_replay(prop: &dyn Prop, env: &Env, f: &Failure, original: &Failure,
         "verif_seed": env.verif_seed,
         "engine": prop.engine(),
         "observed": { "detail": f.detail },
+        "process_history": { "tier": env.tier.name(), "run_indices_executed_first_in_the_same_process": history },
         "case": f.case,
         "minimised_from": { "shrink_steps": shrink_steps, "original_case_bytes": serde_json::to_string(&original.case).unwrap().len(), "case_bytes": serde_json::to_string(&f.case).unwrap().len() },
     });
@@ -614,6 +636,16 @@ pub fn replay_file(prop: &dyn Prop, env: &Env, path: &Path) -> Result<Option<Fai
     let v: Value = serde_json::from_str(&s).map_err(|e| format!("bad replay file: {}", e))?;
     if v["property"].as_str() != Some(prop.id()) {
         return Err(format!("replay file is for property {:?}", v["property"]));
+    }
+    // process history first: earlier runs of the same worker process, outcomes ignored
+    if let Some(h) = v["process_history"]["run_indices_executed_first_in_the_same_process"].as_array() {
+        if !h.is_empty() {
+            let tier = if v["process_history"]["tier"].as_str() == Some("thorough") { Tier::Thorough } else { Tier::Quick };
+            let henv = Env { corpus: env.corpus.clone(), unrelated: env.unrelated.clone(), scratch: env.scratch.clone(), verif_seed: v["verif_seed"].as_u64().unwrap_or(env.verif_seed), tier };
+            for j in h.iter().filter_map(|x| x.as_u64()) {
+                let _ = run_one(prop, &henv, j);
+            }
+        }
     }
     let out = prop.execute(env, &v["case"]);
     if let Some(h) = out.harness_error {
@@ -629,6 +661,8 @@ pub fn replay_in_child(prop_id: &str, path: &Path, timeout: Duration) -> (Option
     cmd.arg("replay").arg(prop_id).arg(path);
     cmd.env_clear();
     cmd.env("PATH", "/usr/bin:/bin");
+    // (a recorded crash / timeout is replayed in a grandchild: let the child give up, and reap it, before we do)
+    cmd.env("WALRUS_DST_REPLAY_TIMEOUT", timeout.as_secs().saturating_sub(60).max(30).to_string());
     if let Ok(r) = std::env::var("WALRUS_REPO") {
         cmd.env("WALRUS_REPO", r);
     }
@@ -693,6 +727,8 @@ pub fn check_main(prop: &dyn Prop, opts: &DriverOpts, extra: &dyn Fn(&Env, &mut 
     }
 
     let findings = load_findings();
+    // a reported crash / hang is confirmed by a solo replay in a fresh process with 1.5x the watchdog's patience
+    let confirm_limit = opts.watchdog.mul_f32(1.5).max(Duration::from_secs(90));
     let mut exit = 0;
     let mut violations = 0u64;
     let mut known_lines: BTreeSet<String> = BTreeSet::new();
@@ -722,20 +758,74 @@ pub fn check_main(prop: &dyn Prop, opts: &DriverOpts, extra: &dyn Fn(&Env, &mut 
         }
         let path = write_replay(prop, &env, &min, f, steps);
         // confirm in a fresh process; fall back to the unminimised case if the minimised one does not reproduce
-        let (code, out) = replay_in_child(prop.id(), &path, Duration::from_secs(600));
+        let (code, out) = replay_in_child(prop.id(), &path, confirm_limit);
         let mut final_path = path.clone();
-        let confirmed = code == Some(1) && out.contains(&format!("oracle={}", min.oracle));
+        // (a recorded crash / timeout is replayed in a grandchild: exit 1 with a crash:/timeout: oracle line)
+        let confirmed = code == Some(1) && (out.contains(&format!("oracle={}", min.oracle)) || (is_crash && (out.contains("oracle=crash:") || out.contains("oracle=timeout:"))));
         let crash_confirmed = is_crash && matches!(code, Some(c) if c >= 128 || c == 124);
         if !(confirmed || crash_confirmed) {
             let p2 = write_replay(prop, &env, f, f, 0);
-            let (code2, out2) = replay_in_child(prop.id(), &p2, Duration::from_secs(600));
-            let ok2 = (code2 == Some(1) && out2.contains(&format!("oracle={}", f.oracle))) || (is_crash && matches!(code2, Some(c) if c >= 128 || c == 124));
+            let (code2, out2) = replay_in_child(prop.id(), &p2, confirm_limit);
+            let ok2 = (code2 == Some(1) && (out2.contains(&format!("oracle={}", f.oracle)) || (is_crash && (out2.contains("oracle=crash:") || out2.contains("oracle=timeout:"))))) || (is_crash && matches!(code2, Some(c) if c >= 128 || c == 124));
             if ok2 {
                 final_path = p2;
             } else {
-                agg.harness_errors.push(format!("REPLAY-MISMATCH run {} oracle {}: replay exit {:?}/{:?}; report withheld", idx, f.oracle, code, code2));
-                violations -= 1;
-                continue;
+                // Not reproducible from the case alone: the failure may depend on state the code under test keeps
+                // across Modules within one PROCESS.  Replay with the runs that worker process executed before it,
+                // then cut that history down (each attempt in a fresh process).
+                let mut found: Option<PathBuf> = None;
+                if let (false, Some(&(pfrom, pstep))) = (is_crash, agg.process_of.get(idx)) {
+                    let full: Vec<u64> = (0..).map(|k| pfrom + k * pstep).take_while(|j| j < idx).collect();
+                    let reproduces = |h: &[u64]| -> Option<PathBuf> {
+                        let p = write_replay_h(prop, &env, f, f, 0, h);
+                        let (c, o) = replay_in_child(prop.id(), &p, confirm_limit);
+                        if c == Some(1) && o.contains(&format!("oracle={}", f.oracle)) {
+                            Some(p)
+                        } else {
+                            None
+                        }
+                    };
+                    if !full.is_empty() {
+                        if let Some(p) = reproduces(&full) {
+                            found = Some(p);
+                            let mut hist = full.clone();
+                            let t0 = Instant::now();
+                            // single predecessors first (the usual case: one earlier module poisoned the state)
+                            for j in full.iter().rev().take(64) {
+                                if t0.elapsed() > opts.minimise_budget * 2 {
+                                    break;
+                                }
+                                if let Some(p) = reproduces(&[*j]) {
+                                    hist = vec![*j];
+                                    found = Some(p);
+                                    break;
+                                }
+                            }
+                            // otherwise halve while it still reproduces
+                            while hist.len() > 1 && t0.elapsed() < opts.minimise_budget * 2 {
+                                let half = hist[hist.len() / 2..].to_vec();
+                                match reproduces(&half) {
+                                    Some(p) => {
+                                        hist = half;
+                                        found = Some(p);
+                                    }
+                                    None => break,
+                                }
+                            }
+                            // (the file on disk is the last one written: rewrite the accepted history)
+                            found = Some(write_replay_h(prop, &env, f, f, 0, &hist));
+                            agg.reach.entry("violations_reproduced_only_with_process_history".into()).and_modify(|x| *x += 1).or_insert(1);
+                        }
+                    }
+                }
+                match found {
+                    Some(p) => final_path = p,
+                    None => {
+                        agg.harness_errors.push(format!("REPLAY-MISMATCH run {} oracle {}: replay exit {:?}/{:?}; report withheld", idx, f.oracle, code, code2));
+                        violations -= 1;
+                        continue;
+                    }
+                }
             }
         }
         println!("VIOLATION property={} replay={}", prop.id(), final_path.display());
@@ -745,6 +835,9 @@ pub fn check_main(prop: &dyn Prop, opts: &DriverOpts, extra: &dyn Fn(&Env, &mut 
     }
     for l in &known_lines {
         println!("{}", l);
+    }
+    for t in agg.timeout_candidates.iter().take(5) {
+        println!("NOTE: watchdog: {}", t);
     }
     let wall = t0.elapsed().as_secs_f64();
     if !agg.harness_errors.is_empty() {
